@@ -8,19 +8,29 @@
                self.enable_by_count()
                try:
                    item = g.send(input_)          # await g.asend(input_)
-               except StopIteration:              # StopAsyncIteration
-                   return
+               except StopIteration as e:         # StopAsyncIteration
+                   return e.value                 # (async: bare return - there is no value)
                finally:
                    self.disable_by_count()
                input_ = (yield item)
 
    The wrapper is itself a generator (async generator): CPython's protocol
    (Wrap/Protocol.v) is applied to *this* automaton to get the wrapped object.
-   Hand model, tied to the source by correspondence only (harness/props/c03.py). *)
+   Hand model, tied to the source by correspondence only (harness/props/c03.py).
+
+   The model has one switch, `fwd`: does the wrapper forward what is thrown at its `yield`
+   (throw()/close(), athrow()/aclose()) to the inner generator?  /repo today: no
+   (`repo_forwards` below).  fwd = true models the repair sketched in
+   Wrap/GenWrapRepaired.v; both variants are proved about, the correspondence check uses
+   the one `repo_forwards` names. *)
 From Coq Require Import List ZArith Bool Lia.
 From LP Require Import Wrap.Protocol.
 Import ListNotations.
 Open Scope Z_scope.
+
+(* THE ONE LINE that says which wrapper /repo contains (flip to true when throw/close
+   forwarding is applied to wrap_generator and wrap_async_generator) *)
+Definition repo_forwards : bool := false.
 
 (* where the wrapper's frame is: not started, or suspended at `input_ = (yield item)`
    holding the inner object g *)
@@ -30,39 +40,48 @@ Arguments WAt {S} g.
 
 Section Wrap.
   Context {S : Type}.
+  Variable fwd : bool.             (* forward throw()/close() to g? *)
   Variable k : kind.               (* KGen: wrap_generator, KAsync: wrap_async_generator *)
   Variable b : ebody S.            (* the decorated function's code *)
   Variable kill : S -> list event.
   Variable s0 : S.
 
-  (* one trip round the loop: enable; try: item = g.send(input_) ... finally: disable *)
-  Definition wrap_loop (g : gstate S) (input_ : val) : list event * bstep (wstate S) :=
-    let '(ev, out, g') := gen_op k b s0 g (OpSend input_) in
+  (* one trip round the loop: enable; try: item = g.send(input_) [g.throw(exc)] ... finally: disable *)
+  Definition wrap_loop (g : gstate S) (o : op) : list event * bstep (wstate S) :=
+    let '(ev, out, g') := gen_op k b s0 g o in
     match out with
     | OYield item => ([EEnable] ++ ev ++ [EDisable], BYield item (WAt g'))
-    | OStop _ | OStopAsync =>
-        (* `except StopIteration: return` - a bare return: the value is not looked at *)
+    | OStop v =>
+        (* `except StopIteration as e: return e.value` *)
+        ([EEnable] ++ ev ++ [EDisable] ++ drop b kill g', BReturn v)
+    | OStopAsync =>
+        (* `except StopAsyncIteration: return` *)
         ([EEnable] ++ ev ++ [EDisable] ++ drop b kill g', BReturn vnone)
     | ORaise e =>
         (* propagates through `finally`; the frame dies and with it the reference to g *)
         ([EEnable] ++ ev ++ [EDisable] ++ drop b kill g', BRaise e)
-    | ONone => ([EEnable] ++ ev ++ [EDisable] ++ drop b kill g', BRaise OtherErr)   (* send never answers this *)
+    | ONone => ([EEnable] ++ ev ++ [EDisable] ++ drop b kill g', BRaise OtherErr)   (* send/throw never answer this *)
     end.
 
   Definition wrap_gen : ebody (wstate S) := fun ws r =>
     match r with
     | SendV v =>
         match ws with
-        | WInit => wrap_loop GCreated vnone        (* g = func(...); input_ = None *)
-        | WAt g => wrap_loop g v                   (* input_ = (yield item) *)
+        | WInit => wrap_loop GCreated (OpSend vnone)     (* g = func(...); input_ = None *)
+        | WAt g => wrap_loop g (OpSend v)                (* input_ = (yield item) *)
         end
     | ThrowE e =>
-        (* the exception is raised by the `yield item` expression, which is outside the
-           try statement: nothing catches it, nothing is forwarded to g; the frame dies and
-           g is finalised by the interpreter *)
         match ws with
         | WInit => ([], BRaise e)
-        | WAt g => (drop b kill g, BRaise e)
+        | WAt g =>
+            if fwd then
+              (* repaired: `except BaseException as e: exc = e` round the yield, then g.throw(exc) *)
+              wrap_loop g (OpThrow e)
+            else
+              (* /repo: the exception is raised by the `yield item` expression, which is outside
+                 the try statement: nothing catches it, nothing is forwarded to g; the frame dies
+                 and g is finalised by the interpreter *)
+              (drop b kill g, BRaise e)
         end
     end.
 
@@ -71,194 +90,270 @@ Section Wrap.
     match ws with WInit => [] | WAt g => drop b kill g end.
 End Wrap.
 
+Definition wrapped_observe_with {S} (fwd : bool) (k : kind) (b : body S) (s0 : S) (ops : list op) :=
+  observe k (wrap_gen fwd k (observed b) nokill s0) (wkill (observed b) nokill) WInit ops.
+(* the object /repo's wrapper returns *)
 Definition wrapped_observe {S} (k : kind) (b : body S) (s0 : S) (ops : list op) :=
-  observe k (wrap_gen k (observed b) nokill s0) (wkill (observed b) nokill) WInit ops.
+  wrapped_observe_with repo_forwards k b s0 ops.
 Definition plain_observe {S} (k : kind) (b : body S) (s0 : S) (ops : list op) :=
   observe k (observed b) nokill s0 ops.
 
-(* ------------------------------------------------------------------------------------ *)
-(* What IS preserved: next/send-only histories of bodies whose return value is None.   *)
-
 Definition is_send (o : op) : bool := match o with OpSend _ => true | _ => false end.
-
-(* the body never returns anything but None *)
-Definition returns_none {S} (b : body S) : Prop := forall s r v, b s r = BReturn v -> v = vnone.
 
 (* simulation between the original object and the wrapper object *)
 Inductive sim {S} : gstate S -> gstate (wstate S) -> Prop :=
 | sim_created : sim GCreated GCreated
 | sim_susp : forall s, sim (GSuspended s) (GSuspended (WAt (GSuspended s)))
+| sim_half : forall s, sim (GHalfClosed s) (GHalfClosed (WAt (GSuspended s)))
 | sim_closed : sim GClosed GClosed.
 
-Section Partial.
+Section Simulation.
   Context {S : Type}.
+  Variable fwd : bool.
   Variable k : kind.
   Variable b : body S.
   Variable s0 : S.
   Hypothesis k_not_coro : k <> KCoro.
-  Hypothesis ret_none : k = KGen -> returns_none b.
 
-  Let W := wrap_gen k (observed b) nokill s0.
+  Let W := wrap_gen fwd k (observed b) nokill s0.
   Let WK := wkill (observed b) nokill.
 
-  Lemma sim_send : forall p w v,
+  Ltac fin := cbn; repeat split; try constructor.
+  Ltac rw := repeat match goal with H : (_ =? _) = _ |- _ => rewrite H end.
+  Ltac raise_case x :=
+    destruct (x =? StopIter) eqn:?; try destruct (x =? StopAsyncIter) eqn:?;
+    try destruct (x =? GenExit) eqn:?; cbn; rw; cbn; rw; fin.
+  Ltac body_cases s r :=
+    let x := fresh "x" in
+    destruct (b s r) as [? ? | ? | x] eqn:?;
+    [ destruct k; try congruence; fin
+    | destruct k; try congruence; fin
+    | destruct k; try congruence; raise_case x ].
+
+  (* one operation: next()/send() always; throw()/close() when the wrapper forwards *)
+  Lemma sim_step : forall p w o,
+    fwd = true \/ is_send o = true ->
     sim p w ->
-    let '(evp, outp, p') := gen_op k (observed b) s0 p (OpSend v) in
-    let '(evw, outw, w') := gen_op k W WInit w (OpSend v) in
+    let '(evp, outp, p') := gen_op k (observed b) s0 p o in
+    let '(evw, outw, w') := gen_op k W WInit w o in
     erase evw = evp /\ outw = outp /\ sim p' w'.
   Proof.
-    intros p w v H. destruct H as [| s |]; subst W;
-      unfold gen_op, wrap_gen, wrap_loop, gen_op, observed, settle, pep479.
-    - destruct (v =? vnone) eqn:Ev; [|cbn; repeat split; constructor].
-      change (vnone =? vnone) with true. cbv iota.
-      destruct (b s0 (SendV vnone)) as [y s' | rv | e] eqn:Eb.
-      + cbn; repeat split; constructor.
-      + destruct k; try congruence; cbn;
-          try rewrite (ret_none eq_refl _ _ _ Eb); repeat split; constructor.
-      + destruct k; try congruence; destruct (e =? StopIter) eqn:E1;
-          try destruct (e =? StopAsyncIter) eqn:E2; cbn; rewrite ?E1, ?E2; cbn; repeat split; constructor.
-    - destruct (b s (SendV v)) as [y s' | rv | e] eqn:Eb.
-      + cbn; repeat split; constructor.
-      + destruct k; try congruence; cbn;
-          try rewrite (ret_none eq_refl _ _ _ Eb); repeat split; constructor.
-      + destruct k; try congruence; destruct (e =? StopIter) eqn:E1;
-          try destruct (e =? StopAsyncIter) eqn:E2; cbn; rewrite ?E1, ?E2; cbn; repeat split; constructor.
-    - destruct k; try congruence; cbn; repeat split; constructor.
-  Qed.
-
-  Lemma sim_drop : forall p w, sim p w -> erase (drop W WK w) = drop (observed b) nokill p.
-  Proof.
-    intros p w H. destruct H as [| s |]; try reflexivity.
-    subst W WK. unfold drop, wrap_gen, observed, nokill. cbn.
-    destruct (b s (ThrowE GenExit)); reflexivity.
+    intros p w o Hop H.
+    assert (Hf : is_send o = false -> fwd = true) by (destruct Hop as [Hx | Hx]; [auto | rewrite Hx; discriminate]).
+    destruct H as [| s | s |]; subst W; destruct o as [v | e |];
+      try (rewrite (Hf eq_refl)); clear Hop Hf;
+      unfold gen_op, wrap_gen, wrap_loop, gen_op, observed, settle, settle_close, pep479.
+    - destruct (v =? vnone) eqn:Ev; [|fin].
+      change (vnone =? vnone) with true. cbv iota. body_cases s0 (SendV vnone).
+    - fin.
+    - fin.
+    - body_cases s (SendV v).
+    - body_cases s (ThrowE e).
+    - body_cases s (ThrowE GenExit).
+    - body_cases s (SendV v).
+    - destruct k; try congruence; fin.
+    - destruct k; try congruence; fin.
+    - destruct k; try congruence; fin.
+    - fin.
+    - fin.
   Qed.
 
   Lemma sim_run : forall ops p w,
-    forallb is_send ops = true -> sim p w ->
+    fwd = true \/ forallb is_send ops = true ->
+    sim p w ->
     let '(trp, p') := run k (observed b) s0 p ops in
     let '(trw, w') := run k W WInit w ops in
     map (fun x => (erase (fst x), snd x)) trw = trp /\ sim p' w'.
   Proof.
     induction ops as [|o ops IH]; intros p w Hs H; cbn [run].
     - split; [reflexivity | assumption].
-    - cbn [forallb] in Hs. apply andb_true_iff in Hs. destruct Hs as [Ho Hs].
-      destruct o as [v | e |]; cbn in Ho; try discriminate.
-      pose proof (sim_send p w v H) as Hstep.
-      destruct (gen_op k (observed b) s0 p (OpSend v)) as [[evp outp] p'].
-      destruct (gen_op k W WInit w (OpSend v)) as [[evw outw] w'].
+    - assert (Ho : fwd = true \/ is_send o = true).
+      { destruct Hs as [Hs | Hs]; [left; assumption|]. cbn [forallb] in Hs.
+        apply andb_true_iff in Hs. right. tauto. }
+      assert (Hs' : fwd = true \/ forallb is_send ops = true).
+      { destruct Hs as [Hs | Hs]; [left; assumption|]. cbn [forallb] in Hs.
+        apply andb_true_iff in Hs. right. tauto. }
+      pose proof (sim_step p w o Ho H) as Hstep.
+      destruct (gen_op k (observed b) s0 p o) as [[evp outp] p'].
+      destruct (gen_op k W WInit w o) as [[evw outw] w'].
       destruct Hstep as (He & Ho' & Hsim).
-      specialize (IH p' w' Hs Hsim).
+      specialize (IH p' w' Hs' Hsim).
       destruct (run k (observed b) s0 p' ops) as [trp p''].
       destruct (run k W WInit w' ops) as [trw w''].
       destruct IH as [Ht Hsim']. split; [|assumption].
       cbn [map fst snd]. rewrite He, Ho', Ht. reflexivity.
   Qed.
 
-  Theorem wrap_gen_send_only : forall ops,
-    forallb is_send ops = true ->
-    erase_obs (wrapped_observe k b s0 ops) = plain_observe k b s0 ops.
+  (* finalisation: the non-forwarding wrapper simply dies and g is finalised once - any body;
+     the forwarding wrapper passes GeneratorExit on, and agrees if the body honours it *)
+  Lemma sim_drop : forall p w,
+    fwd = false \/ honours_close b ->
+    sim p w -> erase (drop W WK w) = drop (observed b) nokill p.
   Proof.
-    intros ops Hs. unfold wrapped_observe, plain_observe, observe.
-    pose proof (sim_run ops GCreated GCreated Hs sim_created) as H. fold W. fold WK.
-    destruct (run k (observed b) s0 GCreated ops) as [trp p'].
-    destruct (run k W WInit GCreated ops) as [trw w'].
-    destruct H as [Ht Hsim]. unfold erase_obs; cbn [fst snd].
-    rewrite Ht, (sim_drop _ _ Hsim). reflexivity.
+    intros p w Hh H. destruct H as [| s | s |]; try reflexivity;
+      subst W WK; unfold drop, wrap_gen, wrap_loop, wkill, drop, gen_op, observed, settle, pep479, nokill;
+      destruct fwd.
+    all: try (destruct (b s (ThrowE GenExit)) as [y s' | rv | x] eqn:Eb; cbn; reflexivity).
+    all: destruct Hh as [Hh | Hh]; [discriminate|].
+    all: destruct (b s (ThrowE GenExit)) as [y s' | rv | x] eqn:Eb;
+      [ exfalso; exact (Hh _ _ _ Eb)
+      | destruct k; reflexivity
+      | destruct k; destruct (x =? StopIter); try destruct (x =? StopAsyncIter); reflexivity ].
   Qed.
-End Partial.
+End Simulation.
 
 (* ------------------------------------------------------------------------------------ *)
-(* What is NOT preserved: concrete witnesses (replayed on the real code by the harness). *)
+(* What IS preserved by /repo's wrapper (and by any variant): next()/send()-only          *)
+(* histories - yielded values, values sent in, exceptions raised by the body, the return  *)
+(* value, behaviour after exhaustion, finalisation.                                        *)
+Theorem wrap_gen_send_only {S} : forall (k : kind) (b : body S) (s0 : S) (ops : list op),
+  k <> KCoro ->
+  forallb is_send ops = true ->
+  erase_obs (wrapped_observe_with false k b s0 ops) = plain_observe k b s0 ops.
+Proof.
+  intros k b s0 ops Hk Hs. unfold wrapped_observe_with, plain_observe, observe.
+  pose proof (sim_run false k b s0 Hk ops GCreated GCreated (or_intror Hs) sim_created) as H.
+  destruct (run k (observed b) s0 GCreated ops) as [trp p'].
+  destruct (run k (wrap_gen false k (observed b) nokill s0) WInit GCreated ops) as [trw w'].
+  destruct H as [Ht Hsim]. unfold erase_obs; cbn [fst snd]. rewrite Ht.
+  rewrite (sim_drop false k b s0 Hk _ _ (or_introl eq_refl) Hsim). reflexivity.
+Qed.
 
-(* gen_ret: `x = yield 1; return 7`  -- state 0: yield 1 -> 1; state 1: return 7 *)
+(* The forwarding variant: every history.  For every body the answers to the operations (and
+   what the body sees during them) are those of the original; if the body honours the close
+   contract, so is finalisation. *)
+Theorem wrap_gen_fwd_ops {S} : forall (k : kind) (b : body S) (s0 : S) (ops : list op),
+  k <> KCoro ->
+  fst (erase_obs (wrapped_observe_with true k b s0 ops)) = fst (plain_observe k b s0 ops).
+Proof.
+  intros k b s0 ops Hk. unfold wrapped_observe_with, plain_observe, observe.
+  pose proof (sim_run true k b s0 Hk ops GCreated GCreated (or_introl eq_refl) sim_created) as H.
+  destruct (run k (observed b) s0 GCreated ops) as [trp p'].
+  destruct (run k (wrap_gen true k (observed b) nokill s0) WInit GCreated ops) as [trw w'].
+  destruct H as [Ht Hsim]. unfold erase_obs; cbn [fst snd]. exact Ht.
+Qed.
+
+Theorem wrap_gen_fwd_full {S} : forall (k : kind) (b : body S) (s0 : S) (ops : list op),
+  k <> KCoro ->
+  honours_close b ->
+  erase_obs (wrapped_observe_with true k b s0 ops) = plain_observe k b s0 ops.
+Proof.
+  intros k b s0 ops Hk Hc. unfold wrapped_observe_with, plain_observe, observe.
+  pose proof (sim_run true k b s0 Hk ops GCreated GCreated (or_introl eq_refl) sim_created) as H.
+  destruct (run k (observed b) s0 GCreated ops) as [trp p'].
+  destruct (run k (wrap_gen true k (observed b) nokill s0) WInit GCreated ops) as [trw w'].
+  destruct H as [Ht Hsim]. unfold erase_obs; cbn [fst snd]. rewrite Ht.
+  rewrite (sim_drop true k b s0 Hk _ _ (or_intror Hc) Hsim). reflexivity.
+Qed.
+
+(* ------------------------------------------------------------------------------------ *)
+(* Witnesses (replayed on the real code by the harness).                                *)
+
+(* gen_ret: `x = yield 1; return 7` *)
 Definition wit_ret : body Z := fun s r =>
-  if s =? 0 then BYield 1 1 else BReturn 7.
+  match r with
+  | SendV _ => if s =? 0 then BYield 1 1 else BReturn 7
+  | ThrowE e => BRaise e
+  end.
 
 (* gen_catch: `try: yield 1  except ValueError: yield 5` then return None *)
 Definition wit_catch : body Z := fun s r =>
-  if s =? 0 then BYield 1 1
-  else if s =? 1 then match r with ThrowE e => if e =? ValueErr then BYield 5 2 else BRaise e | SendV _ => BReturn 0 end
-  else match r with ThrowE e => BRaise e | SendV _ => BReturn 0 end.
+  match r with
+  | SendV _ => if s =? 0 then BYield 1 1 else BReturn 0
+  | ThrowE e => if (s =? 1) && (e =? ValueErr) then BYield 5 2 else BRaise e
+  end.
 
 (* gen_stubborn: `yield 1` and on GeneratorExit `yield 2` (ignores close) *)
 Definition wit_stubborn : body Z := fun s r =>
-  if s =? 0 then BYield 1 1
-  else match r with ThrowE e => if e =? GenExit then BYield 2 2 else BRaise e | SendV _ => BReturn 0 end.
+  match r with
+  | SendV _ => if s =? 0 then BYield 1 1 else BReturn 0
+  | ThrowE e => if e =? GenExit then BYield 2 2 else BRaise e
+  end.
 
-Lemma refuted_return :
-  erase_obs (wrapped_observe KGen wit_ret 0 [OpNext; OpNext])
-  = ([([EIn (SendV 0)], OYield 1); ([EIn (SendV 0)], OStop 0)], [])
+(* the return value is kept (was dropped before /repo commit 44481f3) *)
+Lemma return_value_kept :
+  erase_obs (wrapped_observe_with false KGen wit_ret 0 [OpNext; OpNext])
+  = ([([EIn (SendV 0)], OYield 1); ([EIn (SendV 0)], OStop 7)], [])
   /\ plain_observe KGen wit_ret 0 [OpNext; OpNext]
   = ([([EIn (SendV 0)], OYield 1); ([EIn (SendV 0)], OStop 7)], []).
 Proof. split; vm_compute; reflexivity. Qed.
 
 Lemma refuted_throw :
-  erase_obs (wrapped_observe KGen wit_catch 0 [OpNext; OpThrow ValueErr])
+  erase_obs (wrapped_observe_with false KGen wit_catch 0 [OpNext; OpThrow ValueErr])
   = ([([EIn (SendV 0)], OYield 1); ([EIn (ThrowE GenExit)], ORaise ValueErr)], [])
   /\ plain_observe KGen wit_catch 0 [OpNext; OpThrow ValueErr]
   = ([([EIn (SendV 0)], OYield 1); ([EIn (ThrowE ValueErr)], OYield 5)], [EIn (ThrowE GenExit)]).
 Proof. split; vm_compute; reflexivity. Qed.
 
 Lemma refuted_close :
-  erase_obs (wrapped_observe KGen wit_stubborn 0 [OpNext; OpClose])
+  erase_obs (wrapped_observe_with false KGen wit_stubborn 0 [OpNext; OpClose])
   = ([([EIn (SendV 0)], OYield 1); ([EIn (ThrowE GenExit)], ONone)], [])
   /\ plain_observe KGen wit_stubborn 0 [OpNext; OpClose]
   = ([([EIn (SendV 0)], OYield 1); ([EIn (ThrowE GenExit)], ORaise RuntimeErr)], [EIn (ThrowE GenExit)]).
 Proof. split; vm_compute; reflexivity. Qed.
 
 Lemma refuted_athrow :
-  erase_obs (wrapped_observe KAsync wit_catch 0 [OpNext; OpThrow ValueErr])
+  erase_obs (wrapped_observe_with false KAsync wit_catch 0 [OpNext; OpThrow ValueErr])
   = ([([EIn (SendV 0)], OYield 1); ([EIn (ThrowE GenExit)], ORaise ValueErr)], [])
   /\ plain_observe KAsync wit_catch 0 [OpNext; OpThrow ValueErr]
   = ([([EIn (SendV 0)], OYield 1); ([EIn (ThrowE ValueErr)], OYield 5)], [EIn (ThrowE GenExit)]).
 Proof. split; vm_compute; reflexivity. Qed.
 
 Lemma refuted_aclose :
-  erase_obs (wrapped_observe KAsync wit_stubborn 0 [OpNext; OpClose])
+  erase_obs (wrapped_observe_with false KAsync wit_stubborn 0 [OpNext; OpClose])
   = ([([EIn (SendV 0)], OYield 1); ([EIn (ThrowE GenExit)], ONone)], [])
   /\ plain_observe KAsync wit_stubborn 0 [OpNext; OpClose]
   = ([([EIn (SendV 0)], OYield 1); ([EIn (ThrowE GenExit)], ORaise RuntimeErr)], [EIn (ThrowE GenExit)]).
 Proof. split; vm_compute; reflexivity. Qed.
 
-(* the hypotheses of the partial theorem are satisfiable by a non-trivial history *)
+(* a non-trivial next()/send()-only history with a return value *)
 Definition wit_echo : body Z := fun s r =>
   match r with
-  | SendV v => if s <? 3 then BYield (10 + v) (s + 1) else BReturn 0
+  | SendV v => if s <? 3 then BYield (10 + v) (s + 1) else BReturn 9
   | ThrowE e => BRaise e
   end.
 
-Lemma wit_echo_returns_none : returns_none wit_echo.
-Proof.
-  intros s r v. unfold wit_echo. destruct r as [x | e]; [|discriminate].
-  destruct (s <? 3); [discriminate|]. intros E; inversion E; reflexivity.
-Qed.
-
 Lemma partial_nonvacuous :
-  returns_none wit_echo
-  /\ forallb is_send [OpNext; OpSend 2; OpSend 3; OpNext; OpNext] = true
+  forallb is_send [OpNext; OpSend 2; OpSend 3; OpNext; OpNext] = true
   /\ plain_observe KGen wit_echo 0 [OpNext; OpSend 2; OpSend 3; OpNext; OpNext]
      = ([([EIn (SendV 0)], OYield 10); ([EIn (SendV 2)], OYield 12); ([EIn (SendV 3)], OYield 13);
-         ([EIn (SendV 0)], OStop 0); ([], OStop 0)], [])
-  /\ wrapped_observe KGen wit_echo 0 [OpNext; OpSend 2]
+         ([EIn (SendV 0)], OStop 9); ([], OStop 0)], [])
+  /\ wrapped_observe_with false KGen wit_echo 0 [OpNext; OpSend 2]
      = ([([EEnable; EIn (SendV 0); EDisable], OYield 10); ([EEnable; EIn (SendV 2); EDisable], OYield 12)],
         [EIn (ThrowE GenExit)]).
-Proof.
-  split; [exact wit_echo_returns_none|]. repeat split; vm_compute; reflexivity.
-Qed.
+Proof. repeat split; vm_compute; reflexivity. Qed.
 
-(* the property at full strength, for generators and for async generators, is false of this model *)
-Definition transparent_for (k : kind) : Prop :=
+(* the property at full strength for a wrapper variant *)
+Definition transparent_for (fwd : bool) (k : kind) : Prop :=
   forall (S : Type) (b : body S) (s0 : S) (ops : list op),
-    erase_obs (wrapped_observe k b s0 ops) = plain_observe k b s0 ops.
+    erase_obs (wrapped_observe_with fwd k b s0 ops) = plain_observe k b s0 ops.
 
-Lemma generator_full_false : ~ transparent_for KGen.
+Lemma generator_full_false : ~ transparent_for false KGen.
 Proof.
-  intros H. specialize (H Z wit_ret 0 [OpNext; OpNext]).
-  destruct refuted_return as [Hw Hp]. rewrite Hw, Hp in H. discriminate.
+  intros H. specialize (H Z wit_catch 0 [OpNext; OpThrow ValueErr]).
+  destruct refuted_throw as [Hw Hp]. rewrite Hw, Hp in H. discriminate.
 Qed.
 
-Lemma async_generator_full_false : ~ transparent_for KAsync.
+Lemma async_generator_full_false : ~ transparent_for false KAsync.
 Proof.
   intros H. specialize (H Z wit_catch 0 [OpNext; OpThrow ValueErr]).
   destruct refuted_athrow as [Hw Hp]. rewrite Hw, Hp in H. discriminate.
+Qed.
+
+(* what holds of the wrapper /repo contains, whichever it is (compiles for either value of
+   repo_forwards): refuted without forwarding, transparent (close contract) with it *)
+Definition current_claim (fwd : bool) : Prop :=
+  if fwd then
+    forall (k : kind) (S : Type) (b : body S) (s0 : S) (ops : list op),
+      k <> KCoro -> honours_close b ->
+      erase_obs (wrapped_observe_with true k b s0 ops) = plain_observe k b s0 ops
+  else ~ transparent_for false KGen /\ ~ transparent_for false KAsync.
+
+Lemma current_claim_holds : current_claim repo_forwards.
+Proof.
+  unfold repo_forwards.
+  match goal with
+  | |- current_claim true => exact (fun k S b s0 ops Hk Hc => wrap_gen_fwd_full k b s0 ops Hk Hc)
+  | |- current_claim false => exact (conj generator_full_false async_generator_full_false)
+  end.
 Qed.
